@@ -238,8 +238,9 @@ def correspond(ctx):
         "status of pulse sources reads 0 (documented by the class)",
         "more sources than CSR bus bits: a clear addressed to bit k means the most recent value written to k's word; "
         "software writes every word of `pending` before the committing word (generated accessors do)",
-        "client instances (Timer/UART/GPIO): the trigger waveform is sampled from the real trigger logic; pending, "
-        "clear, irq and read values are the model's own prediction"]
+        "Timer/UART client instances: the trigger waveform is sampled from the real trigger logic (value == 0, FIFO "
+        "valid/ready); pending, clear, irq and read values are the model's own prediction.  GPIO instances: the model "
+        "computes the triggers itself from the synchronised pads and the sampled mode/edge registers"]
     dis = run_corpus(ctx)
     ctx.jobs = jobs(ctx.tier)
     d2, bad = run_jobs(ctx, ctx.jobs)
